@@ -12,6 +12,8 @@
   offsets contiguous from 0, data concatenating to the value.
 -/
 import Mhd.Proofs.PPUrl
+import Mhd.Proofs.PPMulti
+import Mhd.Proofs.PPUrlSafe
 
 namespace Mhd.C15
 open Mhd.PP
@@ -75,6 +77,19 @@ theorem url_split_independent (n : Nat) (fields : List FieldT) (nl : Bytes) (chu
   obtain ⟨p2, b1, _, b3⟩ := url_roundtrip_tok n fields nl chunks₂ hok hnl (h₂.trans h₁)
   exact ⟨p1, p2, a1, b1, a3, b3⟩
 
+/-- Memory safety for **every input** (well-formed or not), every split, every buffer size and every
+    Content-Type that selects the urlencoded parser: no access leaves an object (key buffer, `pp->xbuf`,
+    the on-stack `xbuf[XBUF_SIZE + 1]`, the caller's `post_data`), `abort ()`/`MHD_PANIC` are never
+    reached, and both loops of the model end within their fuel (i.e. they terminate). -/
+theorem url_no_fault (n : Nat) (ctype : Bytes) (pp0 : PP) (chunks : List Bytes)
+    (hc : create n ctype = some pp0) (hu : pp0.isUrl = true) :
+    (destroy (feedAll pp0 chunks)).1.fault = none :=
+  Mhd.PP.url_no_fault n ctype pp0 chunks hc hu
+
+/-- Non-vacuity of `url_no_fault`: the standard content type creates an urlencoded post processor. -/
+example : ∃ pp0, create 256 Mhd.Gen.PP.encUrl = some pp0 ∧ pp0.isUrl = true :=
+  ⟨_, create_url 256, rfl⟩
+
 /-- Non-vacuity: two fields (`a A` with value `%&`, `b` with the empty value), rendered
     `a+%41=%25%26&b=` and split inside an escape, inside a key, and with an empty chunk;
     smallest legal buffer. -/
@@ -92,5 +107,64 @@ example : ∃ pp, run 300 Mhd.Gen.PP.encUrl [encodeUrl [([0x6B, 0x20, 0x79], [0,
     ∧ pp.fault = none ∧
     Delivers pp.evs [(urlMeta [0x6B, 0x20, 0x79], [0, 0x25, 0xff]), (urlMeta [0x7A], [])] :=
   url_roundtrip 300 [([0x6B, 0x20, 0x79], [0, 0x25, 0xff]), ([0x7A], [])] _ (by decide) (by simp)
+
+/-! ## multipart/form-data -/
+
+/-
+  Full statement (not proved in this form):
+
+    theorem multipart_all_inputs (n ctype pp0 chunks) (hc : create n ctype = some pp0) (hu : pp0.isUrl = false) :
+      (destroy (feedAll pp0 chunks)).1.fault = none ∧ (… the two delivery clauses below …)
+
+  What is missing for it: a proof that the fuel the *model* gives the `while` loop of
+  `post_process_multipart` (8·(chunk length + buffered bytes) + 16 iterations, `PPMulti.postProcessMultipart`)
+  always suffices, i.e. a termination measure for that loop.  The model reports exhaustion as the
+  distinguished fault `multipart-fuel`; the correspondence run would show it as a model/code difference.
+-/
+
+/-- Multipart, **every input (well-formed or not), every split, every buffer size and boundary**:
+    unless the model's loop fuel runs out, no access leaves an object (`fault = none` — in particular
+    the window `buf[0 .. buffer_pos)` is never read beyond `buffer_pos`, `memmove` never gets a negative
+    size, the nested boundary is never NULL where it is used, `MHD_PANIC` is never reached);
+    **no fabricated data**: every delivered value byte is a byte of the input; and if every
+    `MHD_post_process` call returned `MHD_YES`, every delivered piece is a contiguous piece of the input. -/
+theorem multipart_all_inputs_partial (n : Nat) (ctype : Bytes) (pp0 : PP) (chunks : List Bytes)
+    (hc : create n ctype = some pp0) (hu : pp0.isUrl = false) :
+    (destroy (feedAll pp0 chunks)).1.fault = fuelFault ∨
+    ((destroy (feedAll pp0 chunks)).1.fault = none ∧
+      (∀ e ∈ (destroy (feedAll pp0 chunks)).1.evs, ∀ b ∈ e.data, b ∈ chunks.flatten) ∧
+      ((feedAllYes pp0 chunks).2 = true →
+        ∀ e ∈ (destroy (feedAll pp0 chunks)).1.evs, e.data <:+: chunks.flatten)) :=
+  multipart_all_inputs n ctype pp0 chunks hc hu
+
+/-- Non-vacuity: `multipart/form-data; boundary=AaB03x` with the smallest buffer creates a multipart
+    post processor, so the hypotheses above are satisfiable (for every chunk list). -/
+example : ∃ pp0, create 256 (Mhd.Gen.PP.encMultipart ++
+      [0x3B, 0x20, 0x62, 0x6F, 0x75, 0x6E, 0x64, 0x61, 0x72, 0x79, 0x3D, 0x41, 0x61, 0x42, 0x30, 0x33, 0x78]) = some pp0
+    ∧ pp0.isUrl = false ∧ pp0.boundary = [0x41, 0x61, 0x42, 0x30, 0x33, 0x78] := by
+  have h : (create 256 (Mhd.Gen.PP.encMultipart ++
+      [0x3B, 0x20, 0x62, 0x6F, 0x75, 0x6E, 0x64, 0x61, 0x72, 0x79, 0x3D, 0x41, 0x61, 0x42, 0x30, 0x33, 0x78])).map
+      (fun p => (p.isUrl, p.boundary)) = some (false, [0x41, 0x61, 0x42, 0x30, 0x33, 0x78]) := by decide +kernel
+  cases hc : create 256 (Mhd.Gen.PP.encMultipart ++
+      [0x3B, 0x20, 0x62, 0x6F, 0x75, 0x6E, 0x64, 0x61, 0x72, 0x79, 0x3D, 0x41, 0x61, 0x42, 0x30, 0x33, 0x78]) with
+  | none => rw [hc] at h; cases h
+  | some p =>
+    rw [hc] at h
+    simp only [Option.map_some, Option.some.injEq, Prod.mk.injEq] at h
+    exact ⟨p, rfl, h.1, h.2⟩
+
+/-
+  Round trip for multipart (statement kept, NOT proved — carried by the correspondence run only):
+
+    theorem multipart_roundtrip (n boundary parts chunks)
+        (hb : 2 ≤ boundary.length ∧ boundary.length * 2 + 2 ≤ n ∧ boundaryFresh boundary parts = true)
+        (hp : ∀ p ∈ parts, headerLinesFit n p ∧ metadataPlain p)          -- lines < n + 4, no quote/CR/LF/NUL
+        (hc : chunks.flatten = encodeMultipart boundary parts) :
+        ∃ pp, run n (multipart/form-data; boundary=…) chunks = some (pp, true) ∧ pp.fault = none ∧
+          Delivers pp.evs (parts.map fun p => (⟨some p.name, p.filename, p.ctype, p.enc⟩, p.value))
+
+  and its extension to nested multipart/mixed.  Missing: the analogue of `LInv`/`step` for the
+  multipart machine (the invariant that relates window, `skip_rn`, header strings and the part list).
+-/
 
 end Mhd.C15
